@@ -71,12 +71,14 @@ package state
 // ---- C02: the reported total only moves for coinbase outputs, by the output's
 // amount, up on do and down on undo; cached balances move by the amount of the
 // output spent / created, for its owner.
+//@ macro ukeyOf(a, t, o) = utxo.GenUtxoKeyWithPrefix(a, t, o)
 //@ func State.doTxInternal
 //@   property C02
 //@   local txInput *protos.TxInput
 //@   local txOutput *protos.TxOutput
 //@   at UtxoVM.UpdateUtxoTotal assert total_only_for_coinbase: tx.Coinbase && $2 && sel(bigval, $0) == natOf(txOutput.Amount) && $1 == batch
 //@   at UtxoVM.SubBalance assert spent_output_leaves_balance: $0 == txInput.FromAddr && sel(bigval, $1) == natOf(txInput.Amount)
+//@   at UtxoCache.Remove assert spent_output_leaves_the_cache: recv == t.utxo.UtxoCache && $0 == str(txInput.FromAddr) && $1 == ukeyOf(txInput.FromAddr, txInput.RefTxid, txInput.RefOffset)
 //@   at UtxoVM.AddBalance assert created_output_enters_balance: $0 == txOutput.ToAddr && sel(bigval, $1) == natOf(txOutput.Amount) && sel(bigval, $1) != 0
 //@   at UtxoVM.CheckInputEqualOutput assert checks_this_tx: $0 == tx
 // C01: what play writes for token outputs. inUKey / outUKey: table keys of the i-th
@@ -126,16 +128,29 @@ package state
 //@   at UtxoVM.UpdateUtxoTotal assert total_only_for_coinbase: tx.Coinbase && !$2 && sel(bigval, $0) == natOf(txOutput.Amount) && $1 == batch
 //@   at UtxoVM.AddBalance assert restored_output_enters_balance: $0 == txInput.FromAddr && sel(bigval, $1) == natOf(txInput.Amount)
 //@   at UtxoVM.SubBalance assert removed_output_leaves_balance: $0 == txOutput.ToAddr && sel(bigval, $1) == natOf(txOutput.Amount) && sel(bigval, $1) != 0
+//@   local offset int
+//@   at UtxoCache.Remove assert removed_output_leaves_the_cache: recv == t.utxo.UtxoCache && $0 == str(txOutput.ToAddr) && $1 == ukeyOf(txOutput.ToAddr, tx.Txid, offset)
+//@   at UtxoCache.Insert assert restored_output_enters_the_cache: recv == t.utxo.UtxoCache && $0 == str(txInput.FromAddr) && $1 == ukeyOf(txInput.FromAddr, txInput.RefTxid, txInput.RefOffset)
 
 // Fee outputs go to (and on undo leave) the block's proposer, with the output's amount.
 //@ func State.payFee
 //@   property C02
 //@   local txOutput *protos.TxOutput
 //@   at UtxoVM.AddBalance assert fee_to_proposer: $0 == block.Proposer && sel(bigval, $1) == natOf(txOutput.Amount)
+// The fee output exists under ONE key - (proposer, txid, offset) - in the table (batch),
+// in the utxo cache and in the balance: created by payFee, taken back by undoPayFee.
+//@   local utxoKey string
+//@   local offset int
+//@   at Batch.Put assert fee_output_stored_for_the_proposer: recv == batch && str($0) == utxoKey && utxoKey == ukeyOf(block.Proposer, tx.Txid, offset) && str(txOutput.ToAddr) == FeePlaceholder
+//@   at UtxoCache.Insert assert fee_output_cached_for_the_proposer: recv == t.utxo.UtxoCache && $0 == str(block.Proposer) && $1 == utxoKey
 //@ func State.undoPayFee
 //@   property C02
 //@   local txOutput *protos.TxOutput
+//@   local utxoKey string
+//@   local offset int
 //@   at UtxoVM.SubBalance assert fee_from_proposer: $0 == block.Proposer && sel(bigval, $1) == natOf(txOutput.Amount)
+//@   at Batch.Delete assert fee_output_removed_for_the_proposer: recv == batch && str($0) == utxoKey && utxoKey == ukeyOf(block.Proposer, tx.Txid, offset) && str(txOutput.ToAddr) == FeePlaceholder
+//@   at UtxoCache.Remove assert fee_output_uncached_for_the_proposer: recv == t.utxo.UtxoCache && $0 == str(block.Proposer) && $1 == utxoKey
 
 // ======================= C07: transaction integrity and authorisation =======================
 // Pure helpers: functions of the (unchanging) transaction / chain state during one verification.
